@@ -1,4 +1,5 @@
 """C12 — the 'in particular' clause: snapshot creation, rollback and relay replacement are all-or-nothing (SqlBracket)."""
+import re
 from ir import last_seg
 import analysis as A
 import sqlmod
@@ -55,6 +56,19 @@ def bracket(prog, rep, sites, method, label, is_open, is_close, is_abort):
     ext = prog.extent(method)
     ss = [s for s in sites if s.fn.path in ext]
     clause_statement_api(prog, rep, sites, ext, label)
+    # a savepoint bracket is tied together by its name: SAVEPOINT x ... RELEASE x / ROLLBACK TO x must all name the same savepoint
+    spn = {}
+    for s_ in ss:
+        txt = sqlmod.strip_strings(s_.stmt.text)
+        for part in [x.strip() for x in txt.split(";") if x.strip()]:
+            m = re.match(r"^(SAVEPOINT|RELEASE(?:\s+SAVEPOINT)?|ROLLBACK(?:\s+TRANSACTION)?\s+TO(?:\s+SAVEPOINT)?)\s+([A-Za-z_][\w]*)\s*$", part, re.I)
+            if m:
+                spn.setdefault(m.group(2), set()).add(re.sub(r"\s+", " ", m.group(1).upper()))
+    if spn:
+        rep.check(len(spn) == 1, "sql-bracket", "%s/savepoint-name" % label,
+                  "opening, release and rollback name the same savepoint (%s)" % ", ".join(sorted(spn)),
+                  "the statements of the bracket name different savepoints %s: a `ROLLBACK TO` an unknown name fails (\"no such savepoint\") and "
+                  "the partial work stays in place" % {k: sorted(v) for k, v in spn.items()}, ss[0].loc())
     opens = [s for s in ss if is_open(s.stmt)]
     closes = [s for s in ss if is_close(s.stmt)]
     aborts = [s for s in ss if is_abort(s.stmt)]
